@@ -219,6 +219,8 @@ def dropped_rule(repo, res, inv):
                         ok = any(isinstance(a, ast.Starred) and pname in _names(a.value) for a in c.args)
                         # a vararg that is unpacked into locals and re-assembled
                         ok = ok or _unpacked_and_forwarded(fn, pname, c)
+                        # ... or forwarded element by element under another name: xs = [f(x) for x in args]; g(*xs)
+                        ok = ok or any(isinstance(a, ast.Starred) and _elementwise_copy_of(fn, a.value, pname) for a in c.args)
                     else:
                         ok = any(k.arg is None and pname in _names(k.value) for k in c.keywords)
                     if not ok:
@@ -227,6 +229,23 @@ def dropped_rule(repo, res, inv):
                 res.bad(key, fn.where(bad), f"{fn.name}: catch-all {star}{pname} is accepted but not forwarded to {norm(bad.func)}: arguments the caller passes are silently dropped", f"{star}{pname} in the call", norm(bad)[:100], rid=r2)
             else:
                 res.ok(key, r2)
+
+
+def _elementwise_copy_of(fn, expr, pname, depth=0):
+    """is expr (a name, or a comprehension) one value per element of the catch-all `pname`, none filtered out?"""
+    if depth > 3:
+        return False
+    if isinstance(expr, ast.Call) and norm(expr.func) in ("list", "tuple") and len(expr.args) == 1 and not expr.keywords:
+        return _elementwise_copy_of(fn, expr.args[0], pname, depth + 1)
+    if isinstance(expr, ast.Name):
+        if expr.id == pname:
+            return True
+        defs = [n.value for n in walk_no_nested(fn.node) if isinstance(n, ast.Assign) and len(n.targets) == 1 and isinstance(n.targets[0], ast.Name) and n.targets[0].id == expr.id]
+        return len(defs) == 1 and _elementwise_copy_of(fn, defs[0], pname, depth + 1)
+    if isinstance(expr, (ast.ListComp, ast.GeneratorExp)) and len(expr.generators) == 1 and not expr.generators[0].ifs:
+        g = expr.generators[0]
+        return _elementwise_copy_of(fn, g.iter, pname, depth + 1) and isinstance(g.target, ast.Name) and g.target.id in _names(expr.elt)
+    return False
 
 
 def _g(gate):
